@@ -175,7 +175,13 @@ class JSONCodec(AbstractMetadataCodec):
 
         # Assign default values
         if isinstance(result, dict):
-            return dict(self.defaults, **result)
+            ret = dict(self.defaults, **result)
+            for key in self.defaults:
+                if key not in result:
+                    # The codec is shared by every user of this schema: never
+                    # hand out the default objects themselves.
+                    ret[key] = copy.deepcopy(ret[key])
+            return ret
         else:
             return result
 
